@@ -9,4 +9,13 @@ CHECKS = {
        "(all 4096 three-vertex networks, structured families, random up to 8 vertices), plus a direct Edmonds-Karp/feasibility oracle on the implementation's output.",
   note="Trusted: Coq kernel + vm_compute; hand-written model FlowModel.v and the correspondence harness; set-pop order in reachable_vertices abstracted to the least closed set; "
        "augmentation fuel = observed augmentations+1 (C08_terminates bounds it). The theorem is about the model; the tie to the code is differential testing."),
+ "C09": dict(
+  text="Proof (full, model level): C09_maximum_matching — for every bipartite graph in the stated domain the pairs read off the maximum flow of the unit network are graph edges, vertex-disjoint, and no matching is larger (built on the C08 proof). Tied to flow.py:205-277 by exact comparison on all graphs up to 3+3 vertices in both encodings and random graphs up to 7+7, plus an independent augmenting-path oracle.",
+  note="Trusted: Coq kernel + vm_compute; models FlowModel.v/BipModel.v; harness. Validation code (check_bipartite_graph) is exercised (valid inputs must not raise, inconsistent X/Y must raise) but not modelled."),
+ "C01": dict(
+  text="Proof (full, model level): both coded deferred-acceptance loops (flags, snapshot, counters, rounds) refine an abstract DA machine; the matching read off the returned pairs is stableM (feasible: each resident once, capacities respected, mutually acceptable; no blocking pair) for every strict profile pair, capacity function and orientation, and both loops terminate within n*m+2 rounds. Tied to deterministic_matching.py:56-186 by exact comparison of the returned set of pairs (exhaustive n,m<=2, structured, random) and a direct blocking-pair oracle.",
+  note="Trusted: Coq kernel + vm_compute; models GS2.v/GS3.v with accessors computed by the proved stable argsort (numpy argsort on strict rows: NaN last, otherwise determined); harness. Index convention handled by the harness (shift by one, checked)."),
+ "C02": dict(
+  text="Proof (full, model level): C02_resident_optimal / C02_resident_pessimal — against every stable matching of the instance the resident-oriented result gives each resident a weakly better hospital (matched whenever matched anywhere) and the hospital-oriented result a weakly worse one (invariant: no achievable pair is ever rejected). Tied to the code by the same exact correspondence as C01; oracle enumerates all stable matchings by brute force (n<=5, m<=3) and checks the renumbering relation on larger instances.",
+  note="Trusted: as C01. Equivariance under renumbering is checked on the implementation (metamorphic oracle), not stated as a separate theorem: the model is a function of the instance."),
 }
